@@ -269,7 +269,7 @@ def stream_events(run, client=None, cconn=None):
     client, cconn = client or ml[1], cconn or ml[0]
     tok_of_id = {}
     for e in run["events"]:
-        if e["c"] == client and e["p"] == "call.start" and (e["a"][1] or "").endswith(("Sub", "SubS")):
+        if e["c"] == client and e["p"] == "call.start" and (e["a"][1] or "").endswith(("Sub", "SubS", "SubOnly")):
             args = e["a"][4] if len(e["a"]) > 4 else []
             i = nid(e["a"][0])
             if args and i is not None:
@@ -391,7 +391,7 @@ def forwarder_cases(run):
     client = ml[1]
     tok_of_req = {}
     for e in run["events"]:
-        if e["c"] == client and e["p"] == "call.start" and (e["a"][1] or "").endswith(("Sub", "SubS")):
+        if e["c"] == client and e["p"] == "call.start" and (e["a"][1] or "").endswith(("Sub", "SubS", "SubOnly")):
             args = e["a"][4] if len(e["a"]) > 4 else []
             i = nid(e["a"][0])
             if args and i is not None:
